@@ -75,15 +75,19 @@ def _budget(ch, el):
     return VALENCE[el]
 
 
-def gen_molecule(ch, max_atoms=20, stereo=50, brackets=30, aromatic=20, fragments=15, rings=8):
+def gen_molecule(ch, max_atoms=20, stereo=50, brackets=30, aromatic=20, fragments=15, rings=8, hubs=False):
     """percent knobs: stereo (chirality + marks), brackets (isotopes/charges/H/metals), aromatic rings"""
     m = AMol()
     n = ch.int(1, max_atoms)
     for i in range(n):
         if i and ch.exhausted():
             break
-        el = _pick_element(ch)
-        idx = m.add_atom(el, _budget(ch, el))
+        if hubs and ch.bool(45):
+            el = ch.pick(["S", "P", "S", "P", "N"])        # atoms that can carry 5-6 bonds: several rings AND branches
+            idx = m.add_atom(el, {"S": 6, "P": 5, "N": 5}[el])
+        else:
+            el = _pick_element(ch)
+            idx = m.add_atom(el, _budget(ch, el))
         if i == 0:
             continue
         if ch.bool(fragments) and i > 1:
